@@ -23,7 +23,7 @@ func (r *runner) sig(c *tcase, et *etype, what string) vh.M {
 		mode = "fault"
 	}
 	return vh.M{"engine": "serial", "mode": mode, "kind": c.Obj.K, "cls": c.Obj.Cls, "storage": c.Obj.St,
-		"format": c.Fmt, "view": c.Obj.viewWord(), "fault": ft, "type": et.Name, "what": what}
+		"format": c.Fmt, "view": c.Obj.viewWord(), "fault": ft, "tclass": et.class(), "what": what}
 }
 
 func (r *runner) report(c *tcase, raw json.RawMessage, et *etype, what, msg string, doc []byte, extra vh.M) {
